@@ -98,16 +98,16 @@ pub(crate) fn set_nano(nanos: u64, nano: u32) -> Result<u64, AstrolabeError> {
     Ok(set_subsecond_value(nanos, nano as u64, 1))
 }
 
-pub(crate) fn add_hours(nanos: u64, hours: u32) -> u64 {
-    let hours_as_nanos = hours as u64 * SECS_PER_HOUR_U64 * NANOS_PER_SEC;
+pub(crate) fn add_hours(nanos: u64, hours: u32) -> u128 {
+    let hours_as_nanos = hours as u128 * SECS_PER_HOUR_U64 as u128 * NANOS_PER_SEC as u128;
 
-    nanos + hours_as_nanos
+    nanos as u128 + hours_as_nanos
 }
 
-pub(crate) fn add_minutes(nanos: u64, minutes: u32) -> u64 {
-    let minutes_as_nanos = minutes as u64 * SECS_PER_MINUTE_U64 * NANOS_PER_SEC;
+pub(crate) fn add_minutes(nanos: u64, minutes: u32) -> u128 {
+    let minutes_as_nanos = minutes as u128 * SECS_PER_MINUTE_U64 as u128 * NANOS_PER_SEC as u128;
 
-    nanos + minutes_as_nanos
+    nanos as u128 + minutes_as_nanos
 }
 
 pub(crate) fn add_seconds(nanos: u64, seconds: u32) -> u64 {
@@ -128,16 +128,16 @@ pub(crate) fn add_micros(nanos: u64, micros: u32) -> u64 {
     nanos + micros_as_nanos
 }
 
-pub(crate) fn sub_hours(nanos: i64, hours: u32) -> i64 {
-    let hours_as_nanos = hours as i64 * SECS_PER_HOUR_U64 as i64 * NANOS_PER_SEC as i64;
+pub(crate) fn sub_hours(nanos: i64, hours: u32) -> i128 {
+    let hours_as_nanos = hours as i128 * SECS_PER_HOUR_U64 as i128 * NANOS_PER_SEC as i128;
 
-    nanos - hours_as_nanos
+    nanos as i128 - hours_as_nanos
 }
 
-pub(crate) fn sub_minutes(nanos: i64, minutes: u32) -> i64 {
-    let minutes_as_nanos = minutes as i64 * SECS_PER_MINUTE_U64 as i64 * NANOS_PER_SEC as i64;
+pub(crate) fn sub_minutes(nanos: i64, minutes: u32) -> i128 {
+    let minutes_as_nanos = minutes as i128 * SECS_PER_MINUTE_U64 as i128 * NANOS_PER_SEC as i128;
 
-    nanos - minutes_as_nanos
+    nanos as i128 - minutes_as_nanos
 }
 
 pub(crate) fn sub_seconds(nanos: i64, seconds: u32) -> i64 {
